@@ -610,8 +610,8 @@ impl<'a> ValueGen<'a> {
         } else {
             format!("return {}", self.expr_text(r, depth + 1)?)
         };
-        let ret = if r.is_union() { format!("({})", r.text()) } else { r.text() };
-        Some(format!("({}) -> {} {{ {} }}", params.join(", "), ret, body))
+        // a function literal declares a union result without parentheses: `-> int|float {`
+        Some(format!("({}) -> {} {{ {} }}", params.join(", "), r.text(), body))
     }
 
     /// source text of an expression whose static type is a subtype of `t`
